@@ -462,8 +462,9 @@ pub fn rules(d: &Decl) -> Vec<Violation> {
                     let mut vs = field_rules(f, false);
                     if !vs.is_empty() {
                         fields_clean = false;
-                        // a variant reports its own options first, then stops at its first faulty field
-                        let demanded = own_clean && !first_bad_seen;
+                        // a variant reports its own options first, then every faulty field ("all violated
+                        // rules among ... the fields of one struct")
+                        let demanded = own_clean;
                         for v in vs.iter_mut() {
                             v.demanded = demanded;
                         }
